@@ -104,6 +104,19 @@ TotalCols == 1 + SumTo([w \in Var |-> Sizes[w] * Len(ea[w])], Len(Sizes))
 EmptyMat(v) == [i \in 1..Sizes[v] |-> {}]
 MaskOf(v) == IF pref[v] = 0 THEN EmptyMat(v) ELSE heap[pref[v]]
 
+(* rule_var, second loop nest (dro.py:186-212): the solver columns of the SLOPES.  num_v = number of ones of
+   rand_adapt of v; the block of v for scenario s starts at SlopeFirst(v) + num_v * event_dict(ea[v])[s]
+   (edict is recomputed for every variable); inside the block the ones are taken in row-major order
+   (np.where(depend_mat.flatten())).  Columns are relative to the first slope column. *)
+MaskPairs(v) == {p \in (1..Sizes[v]) \X Comp : p[2] \in MaskOf(v)[p[1]]}
+NumDep(v) == Cardinality(MaskPairs(v))
+RowMajorBefore(p, q) == p[1] < q[1] \/ (p[1] = q[1] /\ p[2] < q[2])
+SlopeRank(v, p) == Cardinality({q \in MaskPairs(v) : RowMajorBefore(q, p)})
+SlopeFirst(v) == SumTo([w \in Var |-> NumDep(w) * Len(ea[w])], v - 1)
+SlopeCol(v, s, p) == SlopeFirst(v) + NumDep(v) * (BlockOf(ea[v], s) - 1) + SlopeRank(v, p)
+SlopeSeq(v, s) == [r \in 1..NumDep(v) |->
+                     LET p == CHOOSE q \in MaskPairs(v) : SlopeRank(v, q) = r - 1 IN <<p[1], p[2], SlopeCol(v, s, p)>>]
+
 Init ==
     /\ ea = [v \in Var |-> << [k \in 1..NS |-> k - 1] >>]
     /\ declared = [v \in Var |-> {}]
@@ -226,6 +239,18 @@ ColsInjective ==
             /\ Col(v, s, i) < TotalCols
             /\ (Col(v, s, i) = Col(w, t, j)) => (v = w /\ i = j)
 
+\* C13: one affine rule per declared event: two scenarios share the slope column of (v, entry, component) exactly
+\* when they are in the same event of v ...
+SlopeSharedIffSameEvent ==
+    \A v \in Var : ~broken[v] =>
+        \A s, t \in Scen : \A p \in MaskPairs(v) :
+            (SlopeCol(v, s, p) = SlopeCol(v, t, p)) <=> SameEvent(ea[v], s, t)
+\* ... and slope columns of distinct (variable, event, entry, component) never collide
+SlopeColsInjective ==
+    (\A v \in Var : ~broken[v]) =>
+        \A v, w \in Var : \A s, t \in Scen : \A p \in MaskPairs(v), q \in MaskPairs(w) :
+            (SlopeCol(v, s, p) = SlopeCol(w, t, q)) => (v = w /\ p = q)
+
 \* C13: comb_set returns the coarsest common refinement
 CombIsMeet ==
     \A v, w \in Var : (~broken[v] /\ ~broken[w]) =>
@@ -271,6 +296,8 @@ ExportRec ==
      comb |-> IF AnyBroken \/ Len(Sizes) < 2 THEN <<>> ELSE CombSet(ea[1], ea[2]),
      evmax |-> IF AnyBroken THEN <<>> ELSE [v \in Var |-> [k \in 1..NS |-> EventMax(v, k - 1)]],
      cols |-> IF AnyBroken THEN <<>> ELSE [v \in Var |-> [k \in 1..NS |-> Col(v, k - 1, 1)]],
+     colsAll |-> IF AnyBroken THEN <<>> ELSE [v \in Var |-> [k \in 1..NS |-> [i \in 1..Sizes[v] |-> Col(v, k - 1, i)]]],
+     scols |-> IF AnyBroken THEN <<>> ELSE [v \in Var |-> [k \in 1..NS |-> SlopeSeq(v, k - 1)]],
      total |-> IF AnyBroken THEN 0 ELSE TotalCols,
      objNS |-> IF AnyBroken THEN 0 ELSE ObjTimesNS]
 
